@@ -158,6 +158,7 @@ func (fs *Store) AddMessage(m storage.Message) (id string, err error) {
 		return "", err
 	}
 	for _, old := range evicted {
+		verifPoint("add.evict.raw", old.rawPath())
 		if err := os.Remove(old.rawPath()); err != nil {
 			log.Error().Str("module", "storage").Str("mailbox", mb.name).Str("id", old.ID()).
 				Err(err).Msg("Unable to delete message")
